@@ -274,6 +274,9 @@ fn gen_kind(s: &mut Incent, rng: &mut Rng, ctx: &mut Ctx, o: &crate::scen::incen
                 0 => (a0.saturating_sub(1), a1),
                 1 => (a0, a1.saturating_add(1)),
                 2 => (a0, a1.saturating_sub(1)),
+                // more native funds attached than declared: must be refused, nothing may stay in the helper
+                3 => (a0.saturating_add(1), a1),
+                4 => (a0.saturating_add(1000), a1),
                 _ => (a0, a1),
             };
             mk(actor, Op::Helper { amounts: [a0, a1.max(1)], dur, funds_a, allow_b }, adv_s, fault)
